@@ -531,7 +531,7 @@ def gen_cases(ctx, round, entry):
         for t, specials, lo_e, hi_e in (("f8", F8_SPECIAL, -300, 300), ("f4", F4_SPECIAL, -37, 38)):
             for o in "<>":
                 f = [{"name": "x", "t": t, "o": o, "shape": []}, {"name": "k", "t": "i2", "o": o, "shape": []}]
-                for d in DELIMS:
+                for d in (DELIMS if not q else r.sample(DELIMS, 3)):
                     for chunk in range(0, len(specials), 5):
                         cs.append({"delim": d, "fields": f, "family": "float-special",
                                    "rows": [[[h], [i]] for i, h in enumerate(specials[chunk:chunk + 5])]})
@@ -587,7 +587,7 @@ def gen_cases(ctx, round, entry):
             f = [{"name": "i", "t": "i8", "o": ">", "shape": []}, {"name": "s", "t": "S2", "o": "|", "shape": []},
                  {"name": "x", "t": "f4", "o": "<", "shape": [2]}]
             cs.append(mk_case(r, f, nrows, r.choice(DELIMS), "many-rows", True))
-    n = ctx.n(250, 3000) if round == 0 else ctx.n(150, 1500)
+    n = ctx.n(200, 4500) if round == 0 else ctx.n(150, 1500)
     for _ in range(n):
         nf = r.choice([1, 2, 2, 3, 3, 4, 5, 6])
         fields = [rnd_field(r, i) for i in range(nf)]
@@ -667,7 +667,9 @@ def differential(ctx, entries, replay_case=None):
                 if failing:
                     break
         by_class = {}
-        for c, o, v in sorted(failing, key=lambda t: len(json.dumps(t[0], default=str))):
+        # one representative per class: a corpus case (witness of a repaired / recorded defect) if one fails, else the smallest
+        for c, o, v in sorted(failing, key=lambda t: (not str(t[0].get("family", "")).startswith("corpus"),
+                                                      len(json.dumps(t[0], default=str)))):
             by_class.setdefault(ent.classify(c, o, v), (c, o, v))
         for k, (cls, (c, o, v)) in enumerate(sorted(by_class.items(), key=lambda kv: str(kv[0]))):
             shown = core.coq_show(ctx.work, PRE, ent.show(c)) if k < 3 else None
